@@ -169,6 +169,10 @@ def add_constraint(draw, spec, allow_dv=True):
     n_ch = draw(st.integers(2, 3))
     n_opt = draw(st.integers(2, 3 if n_ch == 3 else 4))
     placement = draw(st.sampled_from(['perm', 'hier', 'hier_rev', 'mutex', 'free', 'free']))
+    if n_ch > n_opt and t in ('PERMUTATION', 'UNORDERED_NOREPL') and placement != 'perm':
+        # unsatisfiable sizes: documented as 'the DSG is infeasible' (docs/theory.md), which agrees with the property
+        # statement ('the affected branch is infeasible') only when all constrained choices are permanent
+        n_opt = n_ch
     existing = len(spec['choices'])
     # ids: constrained choices get ids that sort in creation order ('x0' < 'x1' ...) or reversed
     ids = [f'x{i}' for i in range(n_ch)]
